@@ -295,6 +295,7 @@ SQUIDS_FORMS = [
     Rule("form.setbacking", r'((?:estate|dstate)\[ei\]\.rho\[i\])\.SetBackingStore\s*\(((?:[^()]|\((?:[^()]|\([^()]*\))*\))*)\)\s*;', r'op_setbacking(&\1,\2);'),
 ]
 
+A = r'\s*([^(),;]+?)\s*'       # one call-free argument expression
 SQUIDS_C05 = [
     Rule("c05.lower_bound", r'auto\s+xit\s*=\s*std::lower_bound\s*\(\s*x\.begin\(\)\s*,\s*x\.end\(\)\s*,\s*xi\s*\)\s*;', 'size_t xit=sq_lower_bound(x,nx,xi);'),
     Rule("c05.upper_bound", r'auto\s+xit\s*=\s*std::upper_bound\s*\(\s*x\.begin\(\)\s*,\s*x\.end\(\)\s*,\s*xi\s*\)\s*;', 'size_t xit=sq_upper_bound(x,nx,xi);'),
@@ -307,6 +308,19 @@ SQUIDS_C05 = [
     Rule("c05.buf.incr", r'\bbuf\.state\s*\+=\s*(\w+)\s*\*\s*(state\[[^\]]+\]\.rho\[nrh\])\s*;', r'op_assign_mul(&buf->state,&\2,\1,1);'),
     Rule("c05.buf.evol", r'\bbuf\.op\s*=\s*op\.Evolve\s*\(\s*H0\s*\(\s*xi\s*,\s*nrh\s*\)\s*,\s*t\s*-\s*t_ini\s*\)\s*;',
          r'{ struct SU_vector h0_; hook_H0(self,xi,nrh,&h0_); op_assign_evol(&buf->op,&h0_,op,t-t_ini,0); }'),
+    # averaging overloads: evolution buffer sized by the H0 it will hold, PrepareEvolve(buffer,tau,scale,avr) on that H0, Evolve(buffer), two scalar products
+    Rule("c05.avg.bufsize.h0", r'std::unique_ptr<double\[\]>\s+evol_buf\s*\(\s*new\s+double\s*\[\s*H0\s*\(%s,%s\)\s*\.\s*GetEvolveBufferSize\s*\(\s*\)\s*\]\s*\)\s*;' % (A, A),
+         r'double* evol_buf; { struct SU_vector hb_; hook_H0(self,\1,\2,&hb_); evol_buf=op_evolbuf(&hb_); }'),
+    Rule("c05.avg.bufsize.local", r'std::unique_ptr<double\[\]>\s+evol_buf\s*\(\s*new\s+double\s*\[\s*h0\s*\.\s*GetEvolveBufferSize\s*\(\s*\)\s*\]\s*\)\s*;',
+         r'double* evol_buf=op_evolbuf(&h0);'),
+    Rule("c05.avg.prepare.h0", r'\bH0\s*\(%s,%s\)\s*\.\s*PrepareEvolve\s*\(\s*evol_buf\.get\(\)\s*,%s,%s,%s\)\s*;' % (A, A, A, A, A),
+         r'{ struct SU_vector hp_; hook_H0(self,\1,\2,&hp_); op_prepare_avg(&hp_,evol_buf,\3,\4,\5); }'),
+    Rule("c05.avg.prepare.local", r'\bh0\s*\.\s*PrepareEvolve\s*\(\s*evol_buf\.get\(\)\s*,%s,%s,%s\)\s*;' % (A, A, A), r'op_prepare_avg(&h0,evol_buf,\1,\2,\3);'),
+    Rule("c05.avg.evol", r'\bbuf\.op\s*=\s*op\.Evolve\s*\(\s*evol_buf\.get\(\)\s*\)\s*;', r'op_assign_fastevol(&buf->op,op,evol_buf,0);'),
+    Rule("c05.avg.ret", r'return\s*\(\s*buf\.op\s*\*\s*(state\[[^\]]+\]\.rho\[nrh\])\s*\)\s*\*\s*(\w+)\s*\+\s*\(\s*buf\.op\s*\*\s*(state\[[^\]]+\]\.rho\[nrh\])\s*\)\s*\*\s*(\w+)\s*;',
+         r'{ double d1_=op_dot(&buf->op,&\1); double d2_=op_dot(&buf->op,&\3); return op_comb(d1_,\2,d2_,\4); }'),
+    Rule("c05.avg.node.ret", r'return\s+(state\[i\]\.rho\[nrh\])\s*\*\s*op\.Evolve\s*\(\s*evol_buf\.get\(\)\s*\)\s*;',
+         r'{ struct SU_vector ev_; op_assign_fastevol(&ev_,op,evol_buf,0); return op_dot(&\1,&ev_); }'),
     Rule("c05.buf.dot", r'return\s+buf\.state\s*\*\s*buf\.op\s*;', 'return op_dot(&buf->state,&buf->op);'),
     Rule("c05.node.h0", r'\bSU_vector\s+h0\s*=\s*H0\s*\(\s*x\[i\]\s*,\s*nrh\s*\)\s*;', 'struct SU_vector h0; hook_H0(self,x[i],nrh,&h0);'),
     Rule("c05.node.ret", r'return\s+(state\[i\]\.rho\[nrh\])\s*\*\s*op\.Evolve\s*\(\s*h0\s*,\s*t\s*-\s*t_ini\s*\)\s*;',
